@@ -193,6 +193,9 @@ func c20Specs() []c20Spec {
 	return []c20Spec{
 		{name: "V{1,4}", v: []float64{1, 4}},
 		{name: "V{4,1}", v: []float64{4, 1}},
+		// two sets that print alike with six decimals (a cache keyed by the printed set cannot tell them apart)
+		{name: "V{1.0000001,2}", v: []float64{1.0000001, 2}},
+		{name: "V{1.0000004,2}", v: []float64{1.0000004, 2}},
 		{name: "V{1,2} the first two of a shared array {1,2,3,4}", v: []float64{1, 2}, shared: 2},
 		{name: "V{1,2,3,4} the whole shared array", v: []float64{1, 2, 3, 4}, shared: -1},
 		{name: "D{1,2} the first two of a shared array {1,2,3,4}", d: []time.Duration{1, 2}, dur: true, shared: 2},
